@@ -958,10 +958,11 @@ def parse_qsl(qs, keep_blank_values=True, encoding=DEFAULT_ENCODING):
     for pair in pairs:
         if not pair:
             continue
-        key, _, value = pair.partition('=')
+        key, eq, value = pair.partition('=')
         if not value:
             if keep_blank_values:
-                value = None
+                # 'k=' carries an empty value, a bare 'k' carries none
+                value = '' if eq else None
             else:
                 continue
         key = unquote(key.replace('+', ' '))
